@@ -162,6 +162,14 @@ func (c *Ctx) callIsPure(cc *ssa.CallCommon) bool {
 
 // call executes a call instruction: builtin semantics, contract application or havoc.
 func (c *Ctx) call(in ssa.Instruction, cc *ssa.CallCommon, st *State, deferred bool) *Val {
+	res := c.callInner(in, cc, st, deferred)
+	if !deferred && len(c.activeRules) > 0 && c.curReach != "false" {
+		c.applyRuleEnsures(cc, res, st)
+	}
+	return res
+}
+
+func (c *Ctx) callInner(in ssa.Instruction, cc *ssa.CallCommon, st *State, deferred bool) *Val {
 	id := c.identifyCallee(cc)
 	var args []*Val
 	if cc.IsInvoke() {
@@ -248,6 +256,10 @@ func (c *Ctx) call(in ssa.Instruction, cc *ssa.CallCommon, st *State, deferred b
 	for _, e := range con.Ensures {
 		// a contract promises its postcondition only when its precondition held
 		c.assumeHere(sImp(preCond, c.evalBool(e.E, env, "callee ensures")))
+	}
+	for _, e := range con.Defines {
+		c.assumeHere(sImp(preCond, c.evalBool(e.E, env, "callee defines")))
+		c.definesUsed[con.Name+": "+e.Src] = true
 	}
 	if con.Opts["noreturn"] == "true" {
 		c.curReach = "false"
